@@ -714,15 +714,23 @@ namespace occa {
 
       push();
 
+      // Skip the opener: its [*] does not close the comment in [/*/]
+      if ((fp.start[0] == '/') && (fp.start[1] == '*')) {
+        fp.start += 2;
+      }
+
+      // A backslash has no meaning inside a comment: [/* a \*/]
       bool finishedComment = false;
       while (!finishedComment && *fp.start != '\0') {
-        skipTo('*');
-        if (*fp.start == '*') {
-          ++fp.start;
-          if (*fp.start == '/') {
-            ++fp.start;
-            finishedComment = true;
+        if ((fp.start[0] == '*') && (fp.start[1] == '/')) {
+          fp.start += 2;
+          finishedComment = true;
+        } else {
+          if (*fp.start == '\n') {
+            fp.lineStart = fp.start + 1;
+            ++fp.line;
           }
+          ++fp.start;
         }
       }
 
